@@ -11,6 +11,6 @@ cp /verif/evidence/$ID.json /tmp/seedtest_$ID.mutant_evidence.json 2>/dev/null
 [ -f /tmp/seedtest_$ID.evidence ] && cp /tmp/seedtest_$ID.evidence /verif/evidence/$ID.json
 cd /repo && git checkout -- . && git clean -fdq
 grep -c '^VIOLATION' /tmp/seedtest_$ID.out | sed "s/^/violation_lines=/"
-grep '^VIOLATION' /tmp/seedtest_$ID.out | head -3
+grep '^VIOLATION' /tmp/seedtest_$ID.out | head -8
 tail -1 /tmp/seedtest_$ID.out
 echo "exit=$RC"
